@@ -31,10 +31,10 @@ type c04Cfg struct {
 }
 
 type c04Prod struct {
-	id    int
-	ids   map[string]string // items of the outstanding request
-	task  *simkit.Task
-	reqNo int
+	id        int
+	ids       map[string]string // items of the outstanding request
+	task      *simkit.Task
+	reqNo     int
 	offeredAt int
 }
 
@@ -50,8 +50,8 @@ type c04Sim struct {
 	owner map[string]int    // item -> request number
 	nreq  int
 	// per request: returned?, error
-	reqDone map[int]bool
-	reqErr  map[int]error
+	reqDone  map[int]bool
+	reqErr   map[int]error
 	reqItems map[int]map[string]string
 }
 
